@@ -225,6 +225,7 @@ func TestReplay_Q(t *testing.T) {
 		}
 	}
 	replayC05Big()
+	replayInterleaved()
 	for _, rf := range append(verifkit.ReplayFiles("TestProp_C01_StoreCrash"), verifkit.ReplayFiles("TestProp_C15_BatchCrash")...) {
 		var c C01Case
 		if err := json.Unmarshal(rf.Case, &c); err != nil {
